@@ -255,4 +255,14 @@ def restartL2 (q : Req2) : Req2 := { q with r := restartL q.r }
 
 def machine2 : Machine G2 Req2 := { step := step2, restartG := restartG2, restartL := restartL2 }
 
+/-- what the CRL endpoint of either authority answers during a reload: `GetCertificateRevocationList` reads the stored list from
+    the database both authorities share (/repo/authority/tls.go: `a.db.(db.CertificateRevocationListDB).GetCRL()`), nothing of it
+    lives in the memory of one `Authority` -/
+def serve2 (enabled : Bool) (g2 : G2) (old : Bool) (pem : Bool) : Resp :=
+  crlHandler enabled (if old then oldView g2 else g2.g) pem
+
+/-- /repo/cas/softcas/softcas.go `CreateCRL`: the certificate named as issuer of the list (issuer name, authority key identifier)
+    is the certificate of the signing key, `certChain[0]` of the intermediate bundle, whatever certificates follow it in the file -/
+def crlIssuerOf {α : Type} (bundle : List α) : Option α := bundle.head?
+
 end Verif.CRL
